@@ -1,3 +1,5 @@
+\* regression InterfaceSharedByClone (IfaceDeep = FALSE, the code before 8aad5d9): TLC must report CloneIndependent violated
+\* (the check configurations ConfStore_c11/c08/c07.cfg describe the current code: all TRUE)
 SPECIFICATION Spec
 CONSTANTS
   IfaceDeep = FALSE
